@@ -2,7 +2,8 @@
 
    case:  <tcp|tls|udp> <quiet|traffic> <n> <end>:<msgs> ...      end = close|cut|hold, msgs over {t,d,x} or "-"
    obs :  deliv <c> <s> <c> <s> ... ; conns <k|-> ; stop <ok|hang> ; left <k> ; port <closed|open> ;
-          conns2 <k> ; numrec <k>
+          conns2 <k> ; numrec <k> ; garbled <k>
+   (garbled = deliveries whose content is not what that (client, seq) sent; the model never garbles)
 
    The model side does not invent a schedule: it REPLAYS the implementation's delivery trace
    (the order in which the consumer received (client, seq)) as a schedule of the interleaving model
@@ -80,7 +81,8 @@ Definition c12_parse (l : list string) : option case12 :=
 
 (* ---- observation ---- *)
 Record obs12 := mkObs { o_deliv : list (nat * nat); o_conns : option nat; o_stop : bool;
-                        o_left : nat; o_port_open : bool; o_conns2 : nat; o_numrec : nat }.
+                        o_left : nat; o_port_open : bool; o_conns2 : nat; o_numrec : nat;
+                        o_garbled : nat }.
 
 Fixpoint parse_pairs (l : list string) : option (list (nat * nat) * list string) :=
   match l with
@@ -98,15 +100,15 @@ Definition parse_obs (l : list string) : option obs12 :=
   | "deliv" :: r =>
       match parse_pairs r with
       | Some (d, ";" :: "conns" :: c :: ";" :: "stop" :: st :: ";" :: "left" :: lf :: ";" :: "port" :: po :: ";"
-                 :: "conns2" :: c2 :: ";" :: "numrec" :: nr :: []) =>
-          match parse_nat lf, parse_nat c2, parse_nat nr with
-          | Some lf', Some c2', Some nr' =>
+                 :: "conns2" :: c2 :: ";" :: "numrec" :: nr :: ";" :: "garbled" :: gb :: []) =>
+          match parse_nat lf, parse_nat c2, parse_nat nr, parse_nat gb with
+          | Some lf', Some c2', Some nr', Some gb' =>
               let c' := if String.eqb c "-" then Some None else option_map Some (parse_nat c) in
               match c' with
-              | Some c' => Some (mkObs d c' (String.eqb st "ok") lf' (negb (String.eqb po "closed")) c2' nr')
+              | Some c' => Some (mkObs d c' (String.eqb st "ok") lf' (negb (String.eqb po "closed")) c2' nr' gb')
               | None => None
               end
-          | _, _, _ => None
+          | _, _, _, _ => None
           end
       | _ => None
       end
@@ -122,7 +124,8 @@ Definition show_obs (o : obs12) : string :=
   " ; stop " ++ (if o_stop o then "ok" else "hang") ++
   " ; left " ++ show_nat (o_left o) ++
   " ; port " ++ (if o_port_open o then "open" else "closed") ++
-  " ; conns2 " ++ show_nat (o_conns2 o) ++ " ; numrec " ++ show_nat (o_numrec o).
+  " ; conns2 " ++ show_nat (o_conns2 o) ++ " ; numrec " ++ show_nat (o_numrec o) ++
+  " ; garbled " ++ show_nat (o_garbled o).
 
 (* ---- generic: strict-priority saturation ---- *)
 Section Saturate.
@@ -198,7 +201,7 @@ Definition t_model (cs : case12) (tr : list (nat * nat)) : obs12 * bool :=
       end in
   let s3 := saturate (t_step true) fuel (t_order n true true) s2 in
   (mkObs (t_log s3) conns (match t_stop s3 with PDone => true | _ => false end)
-         (t_goroutines s3) (t_lis s3) (List.length (t_clients s3)) (t_numrec s3), acc).
+         (t_goroutines s3) (t_lis s3) (List.length (t_clients s3)) (t_numrec s3) 0, acc).
 
 (* ---- UDP guided run ---- *)
 Definition u_order (n g : nat) (with_stop : bool) : list utid :=
@@ -271,7 +274,7 @@ Definition u_model (cs : case12) (tr : list (nat * nat)) : obs12 * bool :=
       end in
   let s3 := saturate (u_step true) fuel (u_order n (List.length (u_cls s2) + n) true) s2 in
   (mkObs (u_log s3) conns (match u_stop s3 with PDone => true | _ => false end)
-         (u_goroutines s3) (u_open s3) (List.length (u_clients s3)) (u_numrec s3), acc).
+         (u_goroutines s3) (u_open s3) (List.length (u_clients s3)) (u_numrec s3) 0, acc).
 
 Definition c12_model (cs : case12) (tr : list (nat * nat)) : obs12 * bool :=
   match cs_proto cs with PUdp => u_model cs tr | _ => t_model cs tr end.
@@ -324,7 +327,7 @@ Definition obs_ok (cs : case12) (o : obs12) : bool :=
               end
   end &&
   o_stop o && Nat.eqb (o_left o) 0 && negb (o_port_open o) && Nat.eqb (o_conns2 o) 0 &&
-  Nat.eqb (o_numrec o) (List.length (o_deliv o)).
+  Nat.eqb (o_numrec o) (List.length (o_deliv o)) && Nat.eqb (o_garbled o) 0.
 
 Definition C12_holds_on (cs : case12) (obs : list string) : bool :=
   match parse_obs obs with Some o => obs_ok cs o | None => false end.
